@@ -799,6 +799,13 @@ func (s *DB) getHistoricRootsAndNodes(
 	return roots, nodes, nil
 }
 
+// SetCreated sets the creation time recorded in the versions committed from
+// now on. Open sets it to the time of the open; a long-lived handle that wants
+// its versions dated by their commit calls this before Commit.
+func (s *DB) SetCreated(when time.Time) {
+	s.crdt.Created = &when
+}
+
 // IsDirty returns true if there are entries in memory that haven't been Commit()ted.
 func (s DB) IsDirty() bool {
 	return s.tombstoned || s.unstored || s.crdt.IsDirty()
